@@ -371,9 +371,14 @@ def select_levelwise(tree, start, sat, nlevels, deep):
     return res, trace
 
 
-def doc_order(res):
-    """Nodes are numbered in pre-order, so document order is ascending number."""
-    return sorted(res)
+def doc_order(tree, start, res):
+    """Document order relative to the queried node list: the position in the pre-order walk of the start nodes.
+    For a document (start nodes in ascending pre-order number) this is simply ascending number; for a Result that
+    gathers nodes of several documents in its own order it is the order the Result presents them in."""
+    pos = {}
+    for i, n in enumerate(tree.flatten(start)):
+        pos.setdefault(n, i)
+    return sorted(res, key=lambda n: pos[n])
 
 
 def finish(tree, res, roots, has_container):
@@ -399,14 +404,19 @@ def select_pathwise(tree, start, sat, nlevels, deep):
     order = lexicographic order of the chains)."""
     first_ok = set(tree.flatten(start) if deep else start)
     hits = []
-    for r in range(tree.n):
+    order = []
+    for n in tree.flatten(start):          # document order relative to the queried node list, every node once
+        if n not in order:
+            order.append(n)
+    position = dict((n, i) for i, n in enumerate(order))
+    for r in order:
         chain = [r]
         while len(chain) < nlevels and chain[0] != DOC:
             chain.insert(0, tree.parent[chain[0]])
         if len(chain) < nlevels or chain[0] == DOC or chain[0] not in first_ok:
             continue
         if all(sat(i, n) for i, n in enumerate(chain)):
-            hits.append((tuple(chain), r))
+            hits.append((tuple(position.get(c, -1) for c in chain), r))
     in_doc_order = [r for _, r in hits]
     hits.sort()
     return in_doc_order, [r for _, r in hits]
